@@ -607,6 +607,7 @@ var sharedFactories []gerror.Factory
 
 func conc(r *rand.Rand, out *gal.Out, n, rounds int, prefix string) {
 	const G = 16
+	var coldBad []string
 	facs := make([]facDesc, 8)
 	for i := range facs {
 		facs[i] = randFactory(r, false)
@@ -625,14 +626,52 @@ func conc(r *rand.Rand, out *gal.Out, n, rounds int, prefix string) {
 	chains := make([]chain, n)
 	for i := range chains {
 		_, steps := randCase(r, i%3 == 0)
-		fi := r.IntN(len(facs))
-		// sequential reference run on a private factory of the same description: also emitted
-		// as an ordinary case, so it is judged against model and spec
-		c := emit(out, "conc-seq", facs[fi], steps)
-		chains[i] = chain{fi, steps, c.Obs}
+		chains[i] = chain{fac: r.IntN(len(facs)), steps: steps}
 	}
+	// Cold start: the very first derivations of the process, one goroutine each, released together,
+	// with NOTHING that synchronises goroutines around them (no fmt, no locks, no channels until
+	// the end): lazily initialised package state (a cached package name, a memo of rendered frame
+	// names) is written by one goroutine and read by another without any happens-before edge, which
+	// the race detector reports whatever the scheduling.  The derived sources must agree too.
+	{
+		var cold sync.WaitGroup
+		release := make(chan struct{})
+		srcs := make([][2]string, G)
+		for g := 0; g < G; g++ {
+			cold.Add(1)
+			go func(g int) {
+				defer cold.Done()
+				<-release
+				f := sharedFactories[g%len(sharedFactories)]
+				a, b := f.SourceOnly(), f.Stack()
+				srcs[g] = [2]string{a.ErrSource(), b.ErrSource()}
+			}(g)
+		}
+		close(release)
+		cold.Wait()
+		for g := range srcs {
+			if facs[g%len(facs)].Src == "" && (srcs[g][0] != "main:conc" || srcs[g][1] != "main:conc") {
+				coldBad = append(coldBad, fmt.Sprintf("goroutine %d: derived sources %q / %q, expected main:conc", g, srcs[g][0], srcs[g][1]))
+			}
+		}
+	}
+	// The CONCURRENT phase comes first: nothing has been derived in this process yet, so whatever
+	// the package initialises lazily (caches in stack.go and friends) is first touched by 16
+	// goroutines at once.  The sequential reference run follows; a pre-warmed process would hide
+	// races and wrong results of first use.
+	type rec struct {
+		k   int
+		got []viewJ
+		pan string
+	}
+	results := make([][]rec, G)
 	res := concResult{Goroutines: G, Chains: n, Factories: len(facs), Rounds: rounds}
-	var mu sync.Mutex
+	for _, m := range coldBad {
+		res.Mismatches++
+		if len(res.FirstMismatches) < 3 {
+			res.FirstMismatches = append(res.FirstMismatches, "cold start: "+m)
+		}
+	}
 	var wg sync.WaitGroup
 	start := make(chan struct{})
 	for g := 0; g < G; g++ {
@@ -642,31 +681,42 @@ func conc(r *rand.Rand, out *gal.Out, n, rounds int, prefix string) {
 			<-start
 			for round := 0; round < rounds; round++ {
 				for k := range chains {
-					c := &chains[(k*7+g*13+round)%len(chains)]
+					ci := (k*7 + g*13 + round) % len(chains)
+					c := &chains[ci]
 					steps := append([]stepDesc(nil), c.steps...)
 					got, pan := runChain(sharedFactories[c.fac], steps)
-					bad := pan != "" || len(got) != len(c.want)
-					for i := 0; !bad && i < len(got); i++ {
-						bad = got[i] != c.want[i]
-					}
-					if bad {
-						mu.Lock()
-						res.Mismatches++
-						if pan != "" {
-							res.Panics++
-						}
-						if len(res.FirstMismatches) < 3 {
-							b, _ := json.Marshal(map[string]any{"goroutine": g, "fac": facs[c.fac], "steps": c.steps, "got": got, "want": c.want, "panic": pan})
-							res.FirstMismatches = append(res.FirstMismatches, string(b))
-						}
-						mu.Unlock()
-					}
+					results[g] = append(results[g], rec{ci, got, pan})
 				}
 			}
 		}(g)
 	}
 	close(start)
 	wg.Wait()
+	// sequential reference run on a private factory of the same description: also emitted as an
+	// ordinary case, so it is judged against model and spec
+	for i := range chains {
+		c := emit(out, "conc-seq", facs[chains[i].fac], chains[i].steps)
+		chains[i].want = c.Obs
+	}
+	for g := range results {
+		for _, rc := range results[g] {
+			c := &chains[rc.k]
+			bad := rc.pan != "" || len(rc.got) != len(c.want)
+			for i := 0; !bad && i < len(rc.got); i++ {
+				bad = rc.got[i] != c.want[i]
+			}
+			if bad {
+				res.Mismatches++
+				if rc.pan != "" {
+					res.Panics++
+				}
+				if len(res.FirstMismatches) < 3 {
+					b, _ := json.Marshal(map[string]any{"goroutine": g, "fac": facs[c.fac], "steps": c.steps, "got": rc.got, "want": c.want, "panic": rc.pan})
+					res.FirstMismatches = append(res.FirstMismatches, string(b))
+				}
+			}
+		}
+	}
 	for i := range facs {
 		if viewOf(sharedFactories[i].(gerror.Error)) != before[i] {
 			res.FactoryChanged++
